@@ -290,7 +290,10 @@ def decode_byte_string(lit):
 
 
 def apply_rewrite(text, frm, to):
-    """literal rewrite; whitespace in `frm` matches any run of whitespace (incl. none) in the source"""
+    """literal rewrite; whitespace in `frm` matches any run of whitespace (incl. none) in the source.
+    `re:<regex>` as `frm` is a regular-expression rewrite (replacement may use \\1 ..)."""
+    if frm.startswith("re:"):
+        return re.subn(frm[3:], to, text)
     pat = r"\s*".join(re.escape(c) for c in frm.split())
     return re.subn(pat, lambda m: to, text)
 
@@ -329,6 +332,23 @@ def splice_fn(text, spec=None, ret=None, loops=None, before=None, after=None, re
             hits = [i for i, l in enumerate(lines) if l.strip() == snippet[1:].strip()]
         else:
             hits = [i for i, l in enumerate(lines) if snippet in l]
+        if len(hits) < k and not snippet.startswith("="):
+            # fuzzy fallback: the anchor line was edited; ghost code carries no semantics, so re-anchor on the most similar
+            # lines (ratio >= 0.72) and let the proof decide
+            import difflib
+            sn = snippet.strip()
+            cand = []
+            for i, l in enumerate(lines):
+                st = l.strip()
+                if not st or st.startswith("//"):
+                    continue
+                r = max(difflib.SequenceMatcher(None, sn, st[:len(sn) + 12]).ratio(), difflib.SequenceMatcher(None, sn, st).ratio())
+                if r >= 0.72:
+                    cand.append((r, i))
+            if len(cand) >= k:
+                best = sorted(i for r, i in sorted(cand, reverse=True)[:k])
+                log.append({"rule": "anchor-fuzzy", "item": sel, "from": snippet, "to": lines[best[k - 1]].strip(), "count": 1})
+                return best[k - 1]
         if len(hits) < k:
             raise Undecided(f"lost anchor: ghost splice point `{snippet}` #{k} in {sel}")
         return hits[k - 1]
